@@ -37,11 +37,19 @@ static void dz_need(dz_buf_t *b, size_t k) {
 static void dz_puts(dz_buf_t *b, const char *s) { size_t k = strlen(s); dz_need(b, k); memcpy(b->p + b->n, s, k); b->n += k; b->p[b->n] = 0; }
 static void dz_putn(dz_buf_t *b, long long v) { char t[32]; snprintf(t, sizeof t, "%lld", v); dz_puts(b, t); }
 static void dz_puthex(dz_buf_t *b, const unsigned char *p, size_t n) {
+    /* hex; a run of >= 6 equal bytes is written (hh*count) so that highly compressible payloads keep the log small */
     static const char hx[] = "0123456789abcdef";
     if (n == 0 || p == NULL) { dz_puts(b, "-"); return; }
-    dz_need(b, 2 * n);
-    for (size_t i = 0; i < n; i++) { b->p[b->n++] = hx[p[i] >> 4]; b->p[b->n++] = hx[p[i] & 15]; }
-    b->p[b->n] = 0;
+    for (size_t i = 0; i < n; ) {
+        size_t j = i + 1;
+        while (j < n && p[j] == p[i]) j++;
+        if (j - i >= 6) {
+            char t[40]; snprintf(t, sizeof t, "(%02x*%zu)", p[i], j - i); dz_puts(b, t);
+            i = j;
+        } else {
+            dz_need(b, 2); b->p[b->n++] = hx[p[i] >> 4]; b->p[b->n++] = hx[p[i] & 15]; b->p[b->n] = 0; i++;
+        }
+    }
 }
 static void dz_entry(const char *tag) { dz_puts(&dz_log, dz_log.n ? ";" : "@"); dz_puts(&dz_log, tag); }
 #define DZ_PEEK 4
